@@ -468,7 +468,7 @@ def _beta_state(run, s0, i, d_keys, succ, fail, size):
     j = smt.bound('jit', Int)
     sz = intterm(size)
     arrs = [z3.Lambda([j], sc[T.aat(ks, j)]), z3.Lambda([j], fc[T.aat(ks, j)]), z3.Lambda([j], sz)]
-    f = F('iterx_next_beta', smt.Rng, Int, *[a.sort() for a in arrs], smt.Rng)
+    f = smt.iterx_fn('iterx_next_beta', smt.Rng, [a.sort() for a in arrs])
     return OpaqueV(f(_rs(s0), intterm(i), *arrs), 'rngstate')
 
 
@@ -532,7 +532,7 @@ def _closest_distances(run, dft, sd):
     sdt = real(sd)
     cnd = z3.Lambda([j], z3.simplify(z3.Not(mn == sdt)))
     val = z3.Lambda([j], mn)
-    f = F('iterx_if_rappend', RSeq, Int, cnd.sort(), val.sort(), RSeq)
+    f = smt.iterx_fn('iterx_if_rappend', RSeq, [cnd.sort(), val.sort()])
     return SeqV('R', f(T.rempty, T.alen(m.keys), cnd, val), True)
 
 
@@ -693,3 +693,122 @@ def _is_first_argmax(run, n):
                                                   z3.And(va <= vr, z3.Implies(va == vr, T.apos(s.term, r.term) <=
                                                                               T.apos(s.term, a)))),
                                   patterns=[T.amem(s.term, a)])))
+
+
+# ---------------------------------------------------------------------------------- neighbourhoods
+@specfn('seeded')
+def _seeded(run, lp, seed):
+    """a deep copy of the learning policy lp whose generator is create_rng(seed)"""
+    c = run.deepcopy(lp)
+    gen = run.st.alloc(Obj('np.Generator', {'state': OpaqueV(T.rng_init(intterm(seed)), 'rngstate')}))
+    rng = run.st.alloc(Obj('_NumpyRNG', {'seed': Num(intterm(seed)), 'rng': gen}))
+    run.st.heap[c.loc] = run.st.heap[c.loc].set('rng', rng)
+    return c
+
+
+@specfn('row2d')
+def _row2d(run, M, j):
+    """row j of M as a (1, d) matrix:  M[j][np.newaxis, :]"""
+    return MatV(LC.row1(LC.mrow(M.term, intterm(j))))
+
+
+@specfn('dists')
+def _dists(run, H, row2d, metric):
+    """cdist(H, row_2d, metric).reshape(-1): distance of every stored context to the query row"""
+    return SeqV('R', LC.mcol(LC.cdistm(LC.opaque_of(metric), H.term, row2d.term), 0))
+
+
+@specfn('within')
+def _within(run, d, radius):
+    """np.where(d <= radius): the tuple holding the indices of the entries not larger than radius"""
+    from .libnp import lemask
+    la = _la()
+    return TupleV([SeqV('I', la.where(lemask(_seq(run, d, 'R').term, real(radius))))])
+
+
+@specfn('n_within')
+def _n_within(run, d, radius):
+    from .libnp import lemask
+    return Num(T.bcnt(lemask(_seq(run, d, 'R').term, real(radius))))
+
+
+@specfn('k_smallest')
+def _k_smallest(run, d, k):
+    """np.argpartition(d, k - 1)[:k]: k indices whose distances are not larger than any other distance (A4)"""
+    la = _la()
+    kk = intterm(k)
+    return SeqV('I', la.islice(la.argpart(_seq(run, d, 'R').term, kk - 1), z3.IntVal(0), kk))
+
+
+@specfn('ival')
+def _ival(run, s, j):
+    """element j of an int sequence"""
+    from .lib import iat
+    return Num(iat(s.term, intterm(j)))
+
+
+@specfn('vstack')
+def _vstack(run, A, B):
+    return MatV(_la().mvstack(A.term, B.term))
+
+
+def _idx_seq(run, v):
+    if isinstance(v, TupleV) and len(v.items) == 1:
+        v = v.items[0]
+    s = run.eng.lib.as_seq(run, v)
+    if s is None or s.kind != 'I':
+        raise Unsupported('spec: expected an index array')
+    return s
+
+
+@specfn('indices_in_range')
+def _indices_in_range(run, idx, n):
+    from .lib import iat, ilen
+    s = _idx_seq(run, idx)
+    j = smt.bound('jidx', Int)
+    return BoolV(z3.ForAll([j], z3.Implies(z3.And(0 <= j, j < ilen(s.term)),
+                                           z3.And(0 <= iat(s.term, j), iat(s.term, j) < intterm(n))),
+                           patterns=[iat(s.term, j)]))
+
+
+@specfn('n_indices')
+def _n_indices(run, idx):
+    from .lib import ilen
+    return Num(ilen(_idx_seq(run, idx).term))
+
+
+@specfn('same_item')
+def _same_item(run, lst, j, v):
+    """element j of a result list is the value v (an arm, or a dict with the same keys and values)"""
+    from .lib import PV
+    o = run.deref(lst)
+    e = o.elems[intterm(j)]
+    if isinstance(v, ArmV):
+        return BoolV(e == PV.pv_arm(v.term))
+    if isinstance(v, Ref) and isinstance(run.deref(v), MapO):
+        m = run.deref(v)
+        return BoolV(e == PV.pv_dict(m.keys, m.cols['']))
+    raise Unsupported('same_item with %r' % (v,))
+
+
+@specfn('none_scaler')
+def _none_scaler(run):
+    from .lib import none_const
+    return OpaqueV(none_const(Opaque), 'scaler')
+
+
+@specfn('rank_true')
+def _rank_true(run, mask, i):
+    """position of index i among the True entries of a mask (inverse of np.where)"""
+    return Num(_la().rank(mask.term, intterm(i)))
+
+
+@specfn('lt_mask')
+def _lt_mask(run, r, x):
+    from .libnp import ltmask
+    return SeqV('B', ltmask(_seq(run, r, 'R').term, real(x)))
+
+
+@specfn('n_true')
+def _n_true(run, m):
+    return Num(T.bcnt(m.term))
